@@ -251,11 +251,29 @@ def writes_before_first_polls():
     raise Shape('startup loops of __pollThread not found')
 
 
-def write_init_pops_each_entry_once():
-    """writeInitParams: `for pname in list(self.writeDict): value = self.writeDict.pop(pname, Done)` and one wfunc(value) call"""
+def write_init_fetches_value_at_time_of_use():
+    """writeInitParams iterates over the NAMES of a snapshot (`for pname in list(self.writeDict):`) and fetches the value
+    at the time of use: the first statement of the loop body is `value = self.writeDict.pop(pname, Done)`, everything
+    else happens inside `if value is not Done:` (an entry consumed meanwhile by a write method is skipped), with exactly
+    one `wfunc(value)` call; `value` is bound nowhere else and writeDict is not touched otherwise"""
     f = find_func(_module(), 'writeInitParams')
-    s = src(f).replace(' ', '')
-    ok = 'forpnameinlist(self.writeDict):' in s and 'value=self.writeDict.pop(pname,Done)' in s and s.count('wfunc(value)') == 1
+    loops = [n for n in f.body if isinstance(n, ast.For)]
+    if len(loops) != 1:
+        raise Shape('writeInitParams: expected exactly one for loop')
+    loop = loops[0]
+    nosp = lambda n: src(n).replace(' ', '')
+    body = loop.body
+    ok = isinstance(loop.target, ast.Name) and loop.target.id == 'pname' and nosp(loop.iter) == 'list(self.writeDict)' \
+        and not loop.orelse
+    ok = ok and len(body) == 2 and nosp(body[0]) == 'value=self.writeDict.pop(pname,Done)' \
+        and isinstance(body[1], ast.If) and nosp(body[1].test) == 'valueisnotDone' and not body[1].orelse
+    ok = ok and nosp(f).count('wfunc(value)') == 1 and 'wfunc(value)' in nosp(body[1])
+    stores = [n for n in ast.walk(f) if isinstance(n, ast.Name) and n.id in ('value', 'pname')
+              and isinstance(n.ctx, ast.Store)]
+    ok = ok and len(stores) == 2 and nosp(f).count('self.writeDict') == 2
+    # nothing but the loop (and the docstring) in the function
+    rest = [n for n in f.body if n is not loop and not (isinstance(n, ast.Expr) and isinstance(n.value, ast.Constant))]
+    ok = ok and not rest
     return 'bool', cbool(ok)
 
 
@@ -414,7 +432,7 @@ FACTS = [module_props, param_props, command_props, checked_value_props,
          add_accessible_catches_exactly_key_and_badvalue, param_setproperty_wraps_badvalue,
          checks_only_without_errors_and_raise, unknown_names_reported, module_props_popped_and_badvalue_collected,
          writedict_only_with_write_method, needscfg_and_uninit_marker, writes_before_first_polls,
-         write_init_pops_each_entry_once, minmax_check_present, mandatory_check_present,
+         write_init_fetches_value_at_time_of_use, minmax_check_present, mandatory_check_present,
          numeric_datatypes_check_properties, array_check_descends_into_members, name_map_filled_after_cfg,
          all_modules_initialised,
          registers_only_created, exit_on_errors, merge_first_wins_and_tags, modname_regex, mod_wraps_bare_values,
